@@ -36,7 +36,7 @@
 (* objects at lattice states are recomputed and the first differing        *)
 (* routine is named.                                                       *)
 (***************************************************************************)
-EXTENDS QuatAlg, Json, IOUtils
+EXTENDS QuatAlg, RatAlg, Json, IOUtils
 
 CONSTANTS Mode
 
@@ -101,22 +101,6 @@ PVerdict(r) ==
        ELSE IF wN # {} THEN "Wla_N_q is not the q-derivative of W_N la_N"
        ELSE IF wF # {} THEN "Wla_F_q is not the q-derivative of W_F la_F"
        ELSE ""
-
-\* =================================================================== rationals <<num, den>>, den > 0, reduced
-Abs(x) == IF x < 0 THEN 0 - x ELSE x
-RECURSIVE Gcd(_, _)
-Gcd(a, b) == IF b = 0 THEN a ELSE Gcd(b, a % b)
-RNorm(x) == LET s == IF x[2] < 0 THEN 0 - 1 ELSE 1
-                g == Gcd(Abs(x[1]), Abs(x[2]))
-            IN IF x[1] = 0 THEN <<0, 1>> ELSE <<(s * x[1]) \div g, (s * x[2]) \div g>>
-RI(k) == <<k, 1>>
-RAdd(x, y) == LET g == Gcd(x[2], y[2]) IN RNorm(<<x[1] * (y[2] \div g) + y[1] * (x[2] \div g), (x[2] \div g) * y[2]>>)
-RNeg(x) == <<0 - x[1], x[2]>>
-RSub(x, y) == RAdd(x, RNeg(y))
-RMul(x, y) == LET a == RNorm(<<x[1], y[2]>>)  b == RNorm(<<y[1], x[2]>>) IN RNorm(<<a[1] * b[1], a[2] * b[2]>>)
-RDivI(x, k) == RMul(x, RNorm(<<1, k>>))
-RECURSIVE IPow(_, _)
-IPow(b, e) == IF e = 0 THEN 1 ELSE b * IPow(b, e - 1)
 
 \* =================================================================== PART S
 \* state Z = [r, v, Os]  (r = r2 - r1, v = v2 - v1, Os = rho1 O1 + rho2 O2); a direction has the same shape
